@@ -142,6 +142,36 @@ impl<'a> BoundaryFeature<'a> {
     }
 }
 
+#[cfg(feature = "verif-hooks")]
+impl BoundaryFeature<'_> {
+    /// `c:<hex of n-gram>:<rel>`, `t:<type codes>:<rel>` or `d:<length bucket>:<L|I|R>`
+    pub(crate) fn verif_describe(&self) -> alloc::string::String {
+        use alloc::format;
+        use alloc::string::String;
+        match self {
+            Self::CharacterNgram(f) => format!(
+                "c:{}:{}",
+                f.ngram.bytes().map(|b| format!("{b:02x}")).collect::<String>(),
+                f.rel_position
+            ),
+            Self::CharacterTypeNgram(f) => format!(
+                "t:{}:{}",
+                f.ngram.iter().map(|t| format!("{t}")).collect::<String>(),
+                f.rel_position
+            ),
+            Self::DictionaryWord(f) => format!(
+                "d:{}:{}",
+                f.length,
+                match f.position {
+                    DictionaryWordPosition::Left => "L",
+                    DictionaryWordPosition::Inside => "I",
+                    DictionaryWordPosition::Right => "R",
+                }
+            ),
+        }
+    }
+}
+
 #[derive(Clone, Copy)]
 struct DummyValue;
 
@@ -391,10 +421,17 @@ impl<'a> Trainer<'a> {
         let mut dict_weights = vec![(0, 0, 0); usize::from(self.dict_word_max_len)];
 
         let bias = unsafe { (bias / quantize_multiplier).to_int_unchecked::<i32>() };
+        #[cfg(feature = "verif-hooks")]
+        crate::verif_hooks::push(crate::verif_hooks::TraceItem::Bias(bias));
 
         for (feature, fid) in self.feature_ids {
             let raw_weight = model.feature_coefficient(i32::try_from(fid)?, wb_idx);
             let weight = unsafe { (raw_weight / quantize_multiplier).to_int_unchecked::<i32>() };
+            #[cfg(feature = "verif-hooks")]
+            crate::verif_hooks::push(crate::verif_hooks::TraceItem::Feature(
+                feature.verif_describe(),
+                weight,
+            ));
 
             if weight == 0 {
                 continue;
